@@ -504,6 +504,13 @@ def iso_scenarios(tier):
                   {'cnt': 4, 'rev': 'r', 'mode': ('tag', 'lib', 'Lm', 'on'), 'names': ['a']}, False, True, 'rpc'),
                  ('use_getc', 'use', 'getc', ('struct', 'use', 'Uchild', {'path': 'p', 'cnt': 3, 'mode': ('tag', 'lib', 'Lm', 'off'), 'extra': 'e'}), ['p'], {'extra': 'e'}, False, True, 'rpc')]
         out.append(('iso:imported-aliases:lib-routes=%s' % routes_in_lib, [('use.stone', use), ('lib.stone', lib), CFG], calls))
+    # (b4) route names with a path: the method is named from namespace, route (with '/' as '_') and version
+    text = ('namespace iso\n\nstruct Arg\n    a Int32\n    b String = "x"\n\nroute get/metadata(Arg, Void, Void)\n\nroute files/list/continue:2(Arg, Void, Void) deprecated\n\n'
+            'route files/list/continue(Void, Void, Void)\n')
+    out.append(('iso:path-routes', [('iso.stone', text), CFG], [
+        ('iso_get_metadata', 'iso', 'get_metadata', ('struct', 'iso', 'Arg', {'a': 4, 'b': 'x'}), [4], {}, False, True, 'rpc'),
+        ('iso_files_list_continue_v2', 'iso', 'files_list_continue_v2', ('struct', 'iso', 'Arg', {'a': 5, 'b': 'y'}), [5], {'b': 'y'}, True, True, 'rpc'),
+        ('iso_files_list_continue', 'iso', 'files_list_continue', None, [], {}, False, True, 'rpc')]))
     # (b3) route names that differ only in style map to one Python name: the backends must refuse them, whatever else the namespace holds
     for a, b in (('get/metadata', 'get_metadata'), ('getMeta', 'get_meta'), ('a/b', 'a_b')):
         for extra_v2 in (False, True):
